@@ -133,6 +133,18 @@ CHECKS = {
              "IsVariant/TryInto; generic enums without TryInto (orphan rule).",
         technique="TLA+ contract (Variants) + TLC enumeration, replay of the full accessor table on real enums",
         design="4 (C11)"),
+    "C14": dict(
+        text="TLC model-checks Delegate.tla (documented selection rule vs State::new_impl's default_enabled-from-the-first-"
+             "attributed-field + assert_single_enabled_field; AsRef's struct/field attribute rule) on every assignment of "
+             "attribute marks to up to 2 (quick) / 3 (thorough) fields x struct-level attribute; every documented case becomes "
+             "real structs for Deref+DerefMut, Index+IndexMut, IntoIterator (all fields of ONE type, so a neighbour would still "
+             "compile) and AsRef+AsMut (instrumented field types whose own AsRef<Self> returns another object; alias and "
+             "generic variants): addresses of returned references, writes through mutable forms, element-wise iteration; "
+             "ambiguous selections must not compile.",
+        note="attribute styles the documentation does not describe (positive marks mixed with ignores, struct-level "
+             "attribute on multi-field structs) are enumerated and reported in the evidence but not asserted.",
+        technique="TLA+ spec (Delegate) + TLC exhaustive attribute assignments, replay as real structs (address identity)",
+        design="4 (C14)"),
 }
 
 NOT_YET = {}
